@@ -174,6 +174,7 @@ def execute(script):
                     sim.stored.append(bid)
                     sim.block_objs[bid] = blk
                     accepted.add(bid)
+                    rejected.discard(bid)
                     delivered_valid.append(blk)
                     cand['became_head'] = chain.head().id == bid
                     cand['installed'] = True
@@ -203,7 +204,8 @@ def execute(script):
                     res.violate(PROP, 'C09/valid-block-not-accepted',
                                 'a valid block on a known parent, delivered outside bulk download, is not in chain state (%s)' % cand['label'])
                     return False
-                rejected.add(bid)
+                if early:
+                    rejected.add(bid)      # only what the rules forbid must never show up later
                 res.bump('rejected_relays')
             # (1b) membership
             if node_ids != accepted:
